@@ -53,7 +53,10 @@ class Witness:
             raw_tap_script = self.items[-3]
         else:
             raw_tap_script = self.items[-2]
-        return Script.parse(BytesIO(encode_varstr(raw_tap_script)))
+        tap_script = Script.parse(BytesIO(encode_varstr(raw_tap_script)))
+        # the leaf hash commits to the script bytes exactly as they are in the witness
+        tap_script.raw = raw_tap_script
+        return tap_script
 
     def tap_leaf(self):
         leaf_version = self.control_block().tapleaf_version
